@@ -28,6 +28,46 @@ def replace(pid):
     print(pid, "section replaced (%d -> %d lines)" % (end - start, len(new)))
 
 
+
+
+def findings_table():
+    import json
+    k = json.load(open(os.path.join(VERIF, "known_findings.json")))
+    out = ["| id | properties | what fails (open known finding; matched by exact case id" + ", and guard where given) | listed cases |",
+           "|---|---|---|---|"]
+    for f in k["findings"]:
+        what = f["what"].replace("|", "/").replace("\n", " ")
+        if len(what) > 330:
+            what = what[:327] + "..."
+        out.append("| `%s` | %s | %s | %d |" % (f["id"], " ".join(f["properties"]), what, len(f.get("case_ids", []))))
+    out.append("")
+    out.append("Repaired in `/repo` (each a `fix:` commit; the witnesses stay in the corpora as regression cases; a `fixed:` entry suppresses nothing):")
+    out.append("")
+    for f in k["fixed"]:
+        t = f.replace("|", "/").replace("\n", " ")
+        if len(t) > 420:
+            t = t[:417] + "..."
+        out.append("* " + t)
+    return "\n".join(out) + "\n"
+
+
+def refresh_findings():
+    dp = os.path.join(VERIF, "DESIGN.md")
+    txt = open(dp).read()
+    block = "<!-- findings-begin -->\n" + findings_table() + "<!-- findings-end -->"
+    if "<!-- findings-begin -->" in txt:
+        txt = re.sub(r"<!-- findings-begin -->.*?<!-- findings-end -->", lambda m: block, txt, flags=re.S)
+    else:
+        marker = "## 8. Build history"
+        txt = txt.replace(marker, "### 7.4 Current list (generated from `known_findings.json` by `python harness/design_tool.py --findings`)\n\n"
+                          + block + "\n\n---------------------------------------------------------------------------\n\n" + marker, 1)
+    open(dp, "w").write(txt)
+    print("findings table refreshed")
+
+
 if __name__ == "__main__":
     for p in sys.argv[1:]:
-        replace(p)
+        if p == "--findings":
+            refresh_findings()
+        else:
+            replace(p)
